@@ -217,6 +217,12 @@ def grantedParams (g : GrantKind) (rt : String) : List (String × String) :=
         (if (splitWs rt.toList).contains "id_token".toList then [("id_token", "<id_token>")] else [])
      else [("id_token", "<id_token>")])
 
+/-- RFC 9207 `IssuerParameter` registered on the grant (hook `after_authorization_response`): every answer of the decision
+    step that carries a Location gets `iss` appended to the URL's query; the auto-submitting form_post page has no Location -/
+def withIssuer (issuer : Option String) : Resp → Resp
+  | .redirect t m ps => if truthy issuer && m != .formPost then .redirect t m (ps ++ [("iss", issuer.getD "")]) else .redirect t m ps
+  | r => r
+
 /-- `AuthorizationServer.create_authorization_response(request, grant_user)` -/
 def respond (cfg : Config) (r : Req) (approve : Bool) : Resp :=
   match front cfg r with
@@ -233,6 +239,10 @@ def respond (cfg : Config) (r : Req) (approve : Bool) : Resp :=
     | .oidcImplicit | .hybrid =>
       let params := if approve then grantedParams g rt ++ stateParam r.state else errorParams "access_denied" r.state
       deliver ru params r.responseMode "fragment"
+
+/-- the decision step of a server whose grants carry the RFC 9207 extension -/
+def respondIss (cfg : Config) (issuer : Option String) (r : Req) (approve : Bool) : Resp :=
+  withIssuer issuer (respond cfg r approve)
 
 /-- `validate_request_prompt` outcome for the GET consent step: `none` = no error -/
 def promptCheck (r : Req) (userPresent : Bool) (ru : String) (mode : Mode) : Option Resp :=
